@@ -165,10 +165,20 @@ def main(argv=None):
                 undecided.append((u.name, 'contract-out-of-date: %s::%s not found' % tuple(u.target)))
                 continue
         changed = desc is not None and led.get(u.name, {}).get('ast_sha256') not in (None, desc['ast_sha256'])
+        # a callee whose body is interpreted at the call site belongs to the unit: a change there also makes
+        # an unsupported construct "undecided on changed code" rather than a checker error
+        closure_now = {}
+        for q in sorted(set(r['inlined']) | set(led.get(u.name, {}).get('closure', {}))):
+            try:
+                rel, qn = q.split('::')
+                closure_now[q] = source.describe(rel, qn)['ast_sha256']
+            except Exception:
+                closure_now[q] = 'missing'
+        for q, h in led.get(u.name, {}).get('closure', {}).items():
+            if closure_now.get(q) != h:
+                changed = True
         for e in r['errors']:
             if e.startswith('unsupported') and (changed or not led):
-                undecided.append((u.name, e))
-            elif e.startswith('unsupported') and changed:
                 undecided.append((u.name, e))
             else:
                 crashes.append((u.name, e))
@@ -208,7 +218,7 @@ def main(argv=None):
                 undecided.append((u.name, 'solver unknown on %s (%s)' % (ob['name'], ob.get('reason'))))
         if desc is not None:
             new_led[u.name] = {'ast_sha256': desc['ast_sha256'], 'obligations': len(r['obligations']),
-                               'labels': sorted(set(names))}
+                               'labels': sorted(set(names)), 'closure': {q: closure_now[q] for q in r['inlined'] if q in closure_now}}
             old = led.get(u.name)
             if old and not changed and old['obligations'] != len(r['obligations']) and not r['errors']:
                 crashes.append((u.name, 'ledger: obligation count %d != %d for unchanged function'
